@@ -4,11 +4,11 @@ CONSTANTS
   NW = 2
   NT = 3
   NG = 2
-  KCodes = {0, 1010000, 1030002, 15150101, 2020505, 1400}
+  KCodes = {0, 1030002, 15150101, 2020505, 1400}
   WIds = {2, 3, 4}
   LMode = "mixed"
-  ECodes = {0, 100, 1500}
-  TCodes = {111,123,321,213}
+  ECodes = {0, 100}
+  TCodes = {111,132,321}
   QuadIds = {4}
   ClampE = 15
   SlackE = 14
@@ -23,10 +23,6 @@ CONSTANTS
   Export = TRUE
 INVARIANT DegenerateEqualsXsec
 INVARIANT TransmittanceInUnitInterval
-INVARIANT BetweenExtremes
-INVARIANT JensenLowerBound
-INVARIANT KTelescoping
-INVARIANT KHotColdBounds
 INVARIANT KFitsInv
 CONSTRAINT KEmitVec
 CHECK_DEADLOCK FALSE
